@@ -5,20 +5,31 @@ import (
 	"runtime"
 	"runtime/debug"
 	"strings"
+	"sync"
 	"sync/atomic"
 	"time"
 )
 
-// deadline is the time one case may take.
-var deadline = 5 * time.Second
+// The property says "terminates". A call that has not returned after `deadline` is a SUSPECT; the same execution is
+// then given until `longDeadline`: only a call that still has not returned is reported as not terminating. A call that
+// needs more than `slowThreshold` is recorded as an observation (evidence: slow_cases), never as a violation.
+var (
+	deadline      = 5 * time.Second
+	longDeadline  = 120 * time.Second
+	slowThreshold = time.Second
+)
 
 // outcome of one guarded execution.
 type outcome struct {
-	Panic    string // "" or the panic value
-	Stack    string // stack of the panic (trimmed)
-	TimedOut bool
-	Err      bool // the entry point reported an error (the expected outcome for malformed input)
+	Panic     string  // "" or the panic value
+	Stack     string  // stack of the panic / of the abandoned goroutine (trimmed)
+	TimedOut  bool    // did not return within longDeadline
+	Err       bool    // the entry point reported an error (the expected outcome for malformed input)
+	Seconds   float64 // how long the call took
+	SlowStack string  // where the call was when it passed the first deadline (it returned later)
 }
+
+func (o outcome) slow() bool { return !o.TimedOut && o.Seconds > slowThreshold.Seconds() }
 
 func (o outcome) bad() bool { return o.Panic != "" || o.TimedOut }
 
@@ -105,8 +116,10 @@ func newGuard() *guard {
 	return &guard{r: newRunner(), timer: t}
 }
 
-// run executes f under recover and the deadline. A closure that misses the deadline is abandoned with its goroutine.
+// run executes f under recover and the two deadlines. A closure that has not returned by the long deadline is
+// abandoned with its goroutine.
 func (g *guard) run(f func() error) outcome {
+	t0 := time.Now()
 	g.r.in <- f
 	g.timer.Reset(deadline)
 	select {
@@ -117,19 +130,42 @@ func (g *guard) run(f func() error) outcome {
 			default:
 			}
 		}
+		o.Seconds = time.Since(t0).Seconds()
+		return o
+	case <-g.timer.C:
+	}
+	// a suspect: note where it is, and keep waiting for the same execution
+	where := stuckStack(g.r.gid.Load())
+	g.timer.Reset(longDeadline - deadline)
+	select {
+	case o := <-g.r.out:
+		if !g.timer.Stop() {
+			select {
+			case <-g.timer.C:
+			default:
+			}
+		}
+		o.Seconds, o.SlowStack = time.Since(t0).Seconds(), where
 		return o
 	case <-g.timer.C:
 		leaked.Add(1)
 		stack := stuckStack(g.r.gid.Load())
 		g.r = newRunner()
-		return outcome{TimedOut: true, Stack: stack}
+		return outcome{TimedOut: true, Stack: stack, Seconds: time.Since(t0).Seconds()}
 	}
 }
 
+// the buffer for goroutine dumps exists before any case runs (a dump must not count as an allocation of the case)
+var (
+	stackMu  sync.Mutex
+	stackBuf = make([]byte, 512<<10)
+)
+
 // stuckStack is the stack (frames of core) of the runner goroutine that has just missed its deadline.
 func stuckStack(gid int64) string {
-	buf := make([]byte, 8<<20)
-	buf = buf[:runtime.Stack(buf, true)]
+	stackMu.Lock()
+	defer stackMu.Unlock()
+	buf := stackBuf[:runtime.Stack(stackBuf, true)]
 	prefix := fmt.Sprintf("goroutine %d ", gid)
 	for _, gr := range strings.Split(string(buf), "\n\n") {
 		if strings.HasPrefix(gr, prefix) {
@@ -200,7 +236,7 @@ func (g *guard) allocStackG(f func() error) (stack string, genericJSON bool) {
 	return strings.Join(lines, "\n"), genericJSON
 }
 
-// allocBound is the allocation a case of the given input length may cause: 64 x input + 1 MiB.
+// allocBound is the heap growth a case of the given input length may cause: 64 x input + 1 MiB.
 func allocBound(n int) uint64 { return 64*uint64(n) + 1<<20 }
 
 func totalAlloc() uint64 {
@@ -218,13 +254,60 @@ func (g *guard) measure(f func() error) (outcome, uint64) {
 	return o, after - before
 }
 
-// confirmAlloc re-measures a suspicious case three times, alone, and returns the smallest allocation seen.
-func (g *guard) confirmAlloc(f func() error) (outcome, uint64) {
+// peak runs f alone and returns by how much the heap grew AT ITS HIGHEST POINT during the call: the property is about
+// memory held, not about garbage churned. While the call runs, a sampler forces one collection after the other and reads
+// HeapAlloc after each: what a reading shows is what was reachable when the collector looked (plus what was allocated
+// while it looked, a few hundred KB for the fastest churners in a process that holds next to nothing itself). A call
+// shorter than a few collections is repeated (its result dropped each time) until enough readings were taken.
+func (g *guard) peak(f func() error) (outcome, uint64) {
+	old := debug.SetGCPercent(10)
+	defer debug.SetGCPercent(old)
+	runtime.GC()
+	var ms runtime.MemStats
+	runtime.ReadMemStats(&ms)
+	base := ms.HeapAlloc
+	var top atomic.Uint64
+	var samples atomic.Int64
+	stop, done := make(chan struct{}), make(chan struct{})
+	go func() {
+		defer close(done)
+		var m runtime.MemStats
+		for {
+			select {
+			case <-stop:
+				return
+			default:
+			}
+			runtime.GC()
+			runtime.ReadMemStats(&m)
+			if m.HeapAlloc > top.Load() {
+				top.Store(m.HeapAlloc)
+			}
+			samples.Add(1)
+		}
+	}()
+	o := g.run(func() error {
+		t0 := time.Now()
+		err := f()
+		for i := 0; i < 2000 && samples.Load() < 6 && time.Since(t0) < 50*time.Millisecond; i++ {
+			err = f()
+		}
+		return err
+	})
+	close(stop)
+	<-done
+	if t := top.Load(); t > base {
+		return o, t - base
+	}
+	return o, 0
+}
+
+// confirmPeak measures the peak heap growth of a suspicious case three times, alone, and returns the smallest.
+func (g *guard) confirmPeak(f func() error) (outcome, uint64) {
 	var best uint64 = ^uint64(0)
 	var last outcome
 	for i := 0; i < 3; i++ {
-		runtime.GC()
-		o, a := g.measure(f)
+		o, a := g.peak(f)
 		last = o
 		if o.bad() {
 			return o, a
